@@ -197,4 +197,41 @@ def groupsOf {α} (n : Nat) (l : List α) : List (List α) :=
 /-- entries of a FASTQ (n = 4) / two-line FASTA (n = 2) / delimited (n = 1) byte string -/
 def entriesK (n : Nat) (b : Bytes) : List (List Bytes) := groupsOf n (linesOf b)
 
+/-! ### specification side, continued: records of wrapped FASTA; per-chunk carriage-return stripping; capped reads -/
+
+def isHdr (l : Bytes) : Bool := l.head? == some GT
+
+/-- group lines into records: a header line opens a new record -/
+def splitRec : List Bytes → List Bytes → List (List Bytes)
+  | [], cur => if cur = [] then [] else [cur]
+  | l :: ls, cur => if isHdr l ∧ cur ≠ [] then cur :: splitRec ls [l] else splitRec ls (cur ++ [l])
+
+/-- the records of a (newline-terminated) wrapped FASTA text -/
+def recordsFasta (b : Bytes) : List (List Bytes) := splitRec (linesOf b) []
+
+
+def CR : Nat := 13
+def endsCR (l : Bytes) : Bool := l.getLast? == some CR
+def dropCR (l : Bytes) : Bytes := if endsCR l then l.dropLast else l
+
+/-- what one buffer makes of its lines -/
+def parseLines : List Bytes → List Bytes
+  | [] => []
+  | l :: ls => if endsCR l then (l :: ls).map dropCR else l :: ls
+
+/-- an LF file: no line ends with a carriage return -/
+def AllLF (ls : List Bytes) : Prop := ∀ l ∈ ls, endsCR l = false
+/-- a CRLF file: every line ends with a carriage return, except possibly the last one (no final line end) -/
+def AllCRLF (ls : List Bytes) : Prop := ∃ init last, ls = init ++ [last] ∧ ∀ l ∈ init, endsCR l = true
+
+
+def toRes {α} : Option α → Res α
+  | some a => .ok a
+  | none => .stop
+
+
+/-- reader states reached from `init`: the carried tail consists of bytes already read -/
+def StOK (file : Bytes) (s : St) : Prop := s.carry.length ≤ s.pos ∧ s.pos ≤ file.length
+
+
 end C01
